@@ -1,10 +1,11 @@
 """Rules over Server / AsyncServer / BaseServer, shared by C05, C11-C13, C15-C19."""
 import ast
+import re
 
 from sa.absval import AbsEval, Const, Kind
 from sa.expr import txt, match, atom, unawait, linear, int_ordering, ordering, dotted
 from sa.model import AnalysisError
-from .common import assume_from, describe
+from .common import assume_from, describe, placeholder_bind
 from .seq import PV, guards_matching, own_nodes, eq_guard
 from .sockrules import FLAVOURS, pconsts, packet_ctor, evaluator
 
@@ -421,8 +422,15 @@ REQ_DEFS = {
     'method': ["environ['REQUEST_METHOD']"],
     'query': ["urllib.parse.parse_qs(environ.get('QUERY_STRING', ''))"],
     'transport': ["query.get('transport', ['polling'])[0]"],
-    'sid': ["query['sid'][0] if 'sid' in query else None", "query.get('sid', [None])[0]"],
-    'upgrade_header': ["environ.get('HTTP_UPGRADE').lower() if 'HTTP_UPGRADE' in environ else None"],
+    # conditional definitions: (guard atom, value when it holds, value when it does not);
+    # ``x = a if c else b`` and ``if c: x = a else: x = b`` are the same paths
+    'sid': [("'sid' in query", "query['sid'][0]", 'None'), "query.get('sid', [None])[0]"],
+    'upgrade_header': [("'HTTP_UPGRADE' in environ", "environ.get('HTTP_UPGRADE').lower()",
+                        'None'),
+                       ("environ.get('HTTP_UPGRADE')", "environ.get('HTTP_UPGRADE').lower()",
+                        'None'),
+                       ("environ.get('HTTP_UPGRADE') is None", 'None',
+                        "environ.get('HTTP_UPGRADE').lower()")],
     'origin': ["environ.get('HTTP_ORIGIN')"],
     'allowed_origins': ['self._cors_allowed_origins(environ)'],
     'socket': ['self._get_socket(sid)'],
@@ -434,6 +442,34 @@ SINKS = {
     'get': 'socket.handle_get_request(___)',
     'post': 'socket.handle_post_request(___)',
 }
+
+
+def _def_text(d):
+    return d if isinstance(d, str) else '%s if %s else %s' % (d[1], d[0], d[2])
+
+
+def _def_ok(p, idx, value, alts):
+    """Is ``value`` (bound at event idx of path p) one of the accepted definitions?  A
+    conditional definition is accepted when the path took the matching branch of its guard
+    before the binding."""
+    if value == 'None' and placeholder_bind(p, idx) and \
+            not any(isinstance(d, tuple) for d in alts):
+        return True
+    for d in alts:
+        if isinstance(d, str):
+            if value == d:
+                return True
+            continue
+        g, vt, vf = d
+        pol = None
+        for e in (p.events if value == 'None' else p.events[:idx]):
+            if e.kind == 'guard' and e.depth == 0:
+                a, pl = atom(e.expr, e.pol)
+                if a == g:
+                    pol = pl
+        if pol is not None and value == (vt if pol else vf):
+            return True
+    return False
 
 
 def request_paths(A, fl):
@@ -491,14 +527,19 @@ def admission_rules(A, fl, rule, parts=('defs', 'sinks', 'inert', 'origin', 'res
     if 'defs' in parts:
         seen = {}
         for p in ps:
-            for e in p.events:
+            for i, e in enumerate(p.events):
                 if e.kind == 'bind' and e.depth == 0:
-                    seen.setdefault(txt(e.target), {})[txt(e.expr)] = e
+                    nm, d = txt(e.target), txt(e.expr)
+                    ok = nm not in REQ_DEFS or _def_ok(p, i, d, REQ_DEFS[nm])
+                    prev = seen.setdefault(nm, {}).get(d)
+                    if prev is None or (prev[0] and not ok):
+                        seen[nm][d] = (ok, e)
         for nm, defs in sorted(seen.items()):
             if nm in REQ_DEFS:
-                for d, e in defs.items():
-                    A.check(d in REQ_DEFS[nm], rule + '.request-attrs',
-                            '%s: request attribute %s is derived as %s' % (name, nm, REQ_DEFS[nm][0]),
+                for d, (ok, e) in defs.items():
+                    A.check(ok, rule + '.request-attrs',
+                            '%s: request attribute %s is derived as %s'
+                            % (name, nm, _def_text(REQ_DEFS[nm][0])),
                             A.site(fi, e.node), key='%s-def-%s' % (name, nm), detail=d,
                             behaviour='the admission chain tests something else than the '
                                       'request it then serves')
@@ -1129,15 +1170,15 @@ def cors_rules(A, rule):
                             "environ.get('HTTP_ORIGIN')) else []",
                             "[environ.get('HTTP_ORIGIN')]", '[]')
             else:
-                ok = rv == '[]'
-                apps = [txt(unawait(v.ev[i].expr).args[0]) for i, _ in v.calls('[].append(_x)')]
                 exp1 = "'{scheme}://{host}'.format(scheme=environ['wsgi.url_scheme'], " \
                        "host=environ['HTTP_HOST'])"
                 exp2 = "'{scheme}://{host}'.format(scheme=environ.get('HTTP_X_FORWARDED_PROTO', " \
                        "environ['wsgi.url_scheme']).split(',')[0].strip(), host=environ.get(" \
                        "'HTTP_X_FORWARDED_HOST', environ['HTTP_HOST']).split(',')[0].strip())"
-                ok = ok and all(a in (exp1, exp2) for a in apps) and \
-                    (not apps or apps[0] == exp1)
+                # the returned list as the engine reconstructs it (display + tracked appends)
+                pv = unawait(p.value)
+                apps = [txt(x) for x in pv.elts] if isinstance(pv, ast.List) else None
+                ok = apps in ([], [exp1], [exp1, exp2])
                 if not ok:
                     rv = rv + ' with ' + repr(apps)
             A.check(ok, rule + '.allowed-set', '%s: the allowed set is %s' % (what, {
